@@ -22,7 +22,7 @@ func init() {
 	fw.Register(&fw.Property{
 		ID:    "C11",
 		Level: "fault_enumeration",
-		Rule: "ENUMERATED single cancellation points x ordinal: a writer log of 6-80 entries (long ones exceed the 32 fetch slots) is requested by a replica through Sync; the request's context is cancelled at a chosen point: {already cancelled, repl.before-slot (k-th arrival, also while all slots are held by blocked fetches), repl.after-dequeue, repl.before-fetch, mid-fetch (remote block fetch held by the gate, then cancel), repl.after-fetch, repl.before-done, merge.after-join, deadline expiry, injected fetch error at the k-th remote fetch}; 1-3 aborted requests in sequence or overlapping (pairs sampled), and sequences of 40 aborted requests at one point (more than the 32 fetch slots), then a final uncancelled request for the same or newer heads. LOAD requests: a persisted log of 6-80 entries (one head, or a local and a replicated head) is reopened with an entry codec (CreateDBOptions.IO) that, at the k-th entry read of the request, cancels it / fails that read / fails that block for the rest of the request, or the request carries a 50-450 us deadline; 1-3 aborted Load(-1) calls, optionally newer entries persisted through a sibling handle, then a final uncancelled Load(-1). " +
+		Rule: "ENUMERATED single cancellation points x ordinal: a writer log of 6-80 entries (long ones exceed the 32 fetch slots) is requested by a replica through Sync; the request's context is cancelled at a chosen point: {already cancelled, repl.before-slot (k-th arrival, also while all slots are held by blocked fetches), repl.after-slot (slot held, replicator lock not yet taken), repl.after-dequeue, repl.before-fetch, mid-fetch (remote block fetch held by the gate, then cancel), repl.after-fetch, repl.before-done, merge.after-join, deadline expiry, injected fetch error at the k-th remote fetch}; 1-3 aborted requests in sequence or overlapping (pairs sampled), and sequences of 40 aborted requests at one point (more than the 32 fetch slots), then a final uncancelled request for the same or newer heads. LOAD requests: a persisted log of 6-80 entries (one head, or a local and a replicated head) is reopened with an entry codec (CreateDBOptions.IO) that, at the k-th entry read of the request, cancels it / fails that read / fails that block for the rest of the request, or the request carries a 50-450 us deadline; 1-3 aborted Load(-1) calls, optionally newer entries persisted through a sibling handle, then a final uncancelled Load(-1). " +
 			"distinct = (log length, point, ordinal, number and overlap of aborted requests, newer-heads flag, store type); non-trivial = the cancellation point was actually reached with the request still running (arrivals observed) and at least one entry was still missing when the final request started",
 		Assumptions: []string{"cancellation granularity is the hook points plus the block fetch", "the final request's blocks are fetchable (links up, no fault)"},
 		Cases:       c11Cases,
@@ -34,7 +34,7 @@ func init() {
 	})
 }
 
-var c11Points = []string{"pre-cancelled", "repl.before-slot", "repl.before-slot/slots-full", "repl.after-dequeue", "repl.before-fetch", "mid-fetch", "repl.after-fetch", "repl.before-done", "merge.after-join", "deadline", "fetch-error"}
+var c11Points = []string{"pre-cancelled", "repl.before-slot", "repl.before-slot/slots-full", "repl.after-slot", "repl.after-dequeue", "repl.before-fetch", "mid-fetch", "repl.after-fetch", "repl.before-done", "merge.after-join", "deadline", "fetch-error"}
 
 func c11Cases(tier string, seed int64) []fw.Case {
 	var out []fw.Case
@@ -67,7 +67,7 @@ func c11Cases(tier string, seed int64) []fw.Case {
 		}
 	}
 	// long sequences of aborted requests (a resource leaked per aborted item only shows after many of them)
-	many := []string{"mid-fetch", "fetch-error", "repl.after-fetch", "repl.before-slot"}
+	many := []string{"mid-fetch", "fetch-error", "repl.after-fetch", "repl.before-slot", "repl.after-slot"}
 	if tier == "thorough" {
 		many = append(many, "repl.after-dequeue", "repl.before-fetch", "repl.before-done", "deadline", "pre-cancelled")
 	}
@@ -276,7 +276,7 @@ func c11Run(c fw.Case) fw.Verdict {
 	e.W.DropAll() // R learns heads only through the requests below
 
 	ctl := &c11Ctl{cancels: map[int]context.CancelFunc{}, plans: map[int]*c11Plan{}, arrivals: map[string]int{}, items: map[string]bool{}, target: R}
-	for _, p := range []string{"repl.before-slot", "repl.after-dequeue", "repl.before-fetch", "repl.after-fetch", "repl.before-done", "merge.after-join"} {
+	for _, p := range []string{"repl.before-slot", "repl.after-slot", "repl.after-dequeue", "repl.before-fetch", "repl.after-fetch", "repl.before-done", "merge.after-join"} {
 		e.H.SetPoint(p, ctl.point)
 	}
 	e.W.SetGate(ctl.gate)
